@@ -38,7 +38,7 @@ func runC37(c *C) {
 	}
 	c.R.Exhaustive = true
 	c.R.Notes = append(c.R.Notes, fmt.Sprintf("stream A enumerated all %d linked files exhaustively; stream B is random", len(fds)))
-	n := c.N(1500, 40000)
+	n := c.N(900, 30000)
 	for i := 0; i < n && !c.Failed(); i++ {
 		reg := &protoregistry.Files{}
 		a := genFile(c.Rand, genOpts{}, i)
